@@ -208,6 +208,10 @@ package method_evaluator
 //@   loop 2 invariant[C09] fresh(arrayT) && arrayT.tType == base.ARRAY
 //@   loop 4 invariant[C09] fresh(arrayT) && arrayT.tType == base.ARRAY
 //@   loop 5 invariant[C09] fresh(arrayT) && arrayT.tType == base.ARRAY
+//@   # C09: union-valued returns are normalised (flattened, duplicates merged): a declared union and
+//@   # `OptionalUnify` go through MakeUnifiedT, `Unify` through UnifyVariants - never a bare MakeUnion
+//@   ensures[C09] old(methodT.method) != "new" && (old(methodT.tType) == base.UNION || old(methodT.tType) == base.OPTIONAL_UNIFY) ==> called(MakeUnifiedT)
+//@   ensures[C09] old(methodT.method) != "new" && old(methodT.tType) == base.UNIFY ==> called(UnifyVariants)
 //@   # C09: `SelfArray`, `KeyValueArray` and an array return build a fresh array, never the receiver
 //@   ensures[C09] old(methodT.method) != "new" && (old(methodT.tType) == base.SELF_ARRAY || old(methodT.tType) == base.KEYVALUE_ARRAY || old(methodT.tType) == base.ARRAY || old(methodT.tType) == base.BLOCK_RESULT_ARRAY) ==> fresh(result) && result.tType == base.ARRAY
 //@   witness assert#0 "x = [1,2].collect\n"
